@@ -159,3 +159,13 @@ package htmldoc
 //@   flags nosafety
 //@   callsite extractHead(d) requires depth_checked_before_the_recursive_walks: !treeDepthExceeds(d, maxTreeDepth)
 //@   callsite extractBody(d) requires depth_checked_before_the_recursive_walks: !treeDepthExceeds(d, maxTreeDepth)
+
+// ---- C19: the direct text of a list item is collected from ALL of its children: text nodes verbatim, inline elements
+// through getTextContent, block children skipped - and the walk goes on after a block child ----
+//@ func getDirectTextContent results (res)
+//@   property C19
+//@   flags nosafety
+//@   loop 0:
+//@     exhaustive
+//@     step text_node_appended_verbatim: !isnil(prev(c)) && prev(c).Type == html.TextNode ==> sameseq(result.String(), prev(result.String()) + prev(c).Data)
+//@     step text_is_only_appended: len(result.String()) >= prev(len(result.String()))
